@@ -24,7 +24,8 @@ TEXT = ("Array/linked queues (Ekit/Props/C09a.lean, same transition systems as C
         "slot returns the permit; at quiescence after any cancellations enqFree = cap - count, deqFree = count, the lock is free and no "
         "close is pending; every own action decreases a variant (array) / decreases it except on the wake-up back edge, which is paid for "
         "by a broadcast (linked). Tied by skeleton equalities (incl. cond.signalCh/broadcast) and by stress runs with directed wake-up "
-        "and cancellation-storm scenarios: no call stays blocked for the (seconds) bound while its enabling condition holds, none fails "
+        "and cancellation-storm scenarios, incl. a woken waiter cancelled right after the wake-up; every call into the queue "
+        "(also the sampler and the probes) is watched, a wedged queue (leaked lock) is reported within seconds and stops the run: no call stays blocked for the (seconds) bound while its enabling condition holds, none fails "
         "to return after its context ended, and the queue then accepts and delivers exactly capacity - len elements.")
 NOTE = ("Residue (partial): wall-clock 'as soon as'/'promptly' and scheduler / mutex / semaphore fairness are not expressible; proved is "
         "enabledness + variant, checked dynamically is completion within a generous bound.")
